@@ -284,6 +284,13 @@ func (it *Interp) runFrame(fr *frame) {
 		}
 		gp, ok := r.(*goPanic)
 		if !ok {
+			if ue, isU := r.(unsupportedErr); isU && ue.loc == "" {
+				ue.loc = it.where() + "\n" + it.stackString()
+				panic(ue)
+			}
+			if bh, isB := r.(boundHit); isB && !strings.Contains(bh.why, " at ") {
+				panic(boundHit{bh.why + " at " + it.where()})
+			}
 			panic(r) // engine-level control flow: no defers
 		}
 		if it.initMode && false {
